@@ -678,8 +678,9 @@ func runStreamOut(sc J) J {
 	if v, ok := sc["writeFaultAt"]; ok && toInt(v) > 0 {
 		fa := toInt(v)
 		conn.faultAt = int64(fa)
-		// the library answers a write error with log.Fatalf; keep the process alive so that the wire can be judged
-		log.StandardLogger().ExitFunc = func(int) {}
+		// the library answers a write error with log.Fatalf, i.e. the process ends there.  To judge what reached the wire, the exit is
+		// replaced by the end of the calling goroutine (the writer): like the process, it executes nothing after the fatal log call
+		log.StandardLogger().ExitFunc = func(int) { lg.add(J{"e": "Exit"}); runtime.Goexit() }
 	}
 	var wg sync.WaitGroup
 	start := make(chan struct{})
